@@ -99,6 +99,7 @@ Edges == {"String",      \* Name.String()  (base36 libp2p-key CID)      -> NameF
           "B58",         \* Peer().String() (legacy base58 multihash)   -> NameFromString
           "CidB32",      \* Cid().String()                              -> NameFromString
           "CidB58",      \* Cid() in base58btc ("z...")                 -> NameFromString
+          "CidB36U",     \* Cid() in upper-case base36 ("K...")         -> NameFromString
           "Cid",         \* Cid()                                       -> NameFromCid
           "RoutingKey",  \* RoutingKey()                                -> NameFromRoutingKey
           "Peer",        \* Peer()                                      -> NameFromPeer
